@@ -9,6 +9,7 @@ Section Statements.
 Context {FA : FloatArith} (SM : StandardModel FA).
 Variables (fam : family) (e : env FA) (ow oh : Z) (frame : Z * Z).
 Local Notation vs := (valid_size fam e ow oh).
+Local Notation fits := (fits fam e ow oh frame).
 
 Lemma mode_fit : forall w h, auto_mode w h = Some FIT -> Dom SM fam e ow oh frame ->
   let '(a, b) := vs w h frame in
@@ -83,11 +84,6 @@ Proof.
   apply fit_to_width_exact. assumption.
 Qed.
 
-(** fits := ORIGINAL's own pixel size (the source width, the ROUNDED scaled height) fits
-    the frame's pixel area *)
-Definition fits : bool :=
-  (ow <=? fwpx fam e frame) && (original_hpx fam e oh <=? fhpx fam e frame).
-
 Lemma auto_original_iff_fits_m : forall w h, auto_mode w h = Some AUTO ->
   vs w h frame = if fits then vs (DSize ORIGINAL) DNone frame else vs (DSize FIT) DNone frame.
 Proof.
@@ -159,8 +155,7 @@ Lemma aspect_auto : forall w h, auto_mode w h = Some AUTO -> Dom SM fam e ow oh 
 Proof.
   intros w h Hm D. rewrite (auto_original_iff_fits_m w h Hm).
   destruct fits eqn:Ef.
-  - left. split; [reflexivity|].
-    (* it fits: the rounded scaled height is at most the frame's, so the bound holds *)
+  - (* it fits: the rounded scaled height is at most the frame's, so the bound holds *)
     unfold fits in Ef. apply andb_prop in Ef. destruct Ef as [E1 E2]. apply Z.leb_le in E2.
     destruct D as [D0 Hfw Hfh].
     assert (Hb : (QZ oh * val SM (pr_of fam e) <= two 40)%Q).
@@ -182,10 +177,11 @@ Proof.
       assert (two 40 * (1 # 2) - (1 # 2) <= QZ (2 ^ 30))%Q by lra.
       revert H. apply Qlt_not_le. apply Qltb_lt. vm_compute. reflexivity. }
     pose proof (original_spec SM fam e ow oh frame D0 Hb) as S.
-    destruct (vs (DSize ORIGINAL) DNone frame). tauto.
-  - right. split; [reflexivity|].
-    pose proof (fit_spec SM fam e ow oh frame D) as S.
-    destruct (vs (DSize FIT) DNone frame). tauto.
+    destruct (vs (DSize ORIGINAL) DNone frame) as [a b].
+    left. split; [reflexivity|]. tauto.
+  - pose proof (fit_spec SM fam e ow oh frame D) as S.
+    destruct (vs (DSize FIT) DNone frame) as [a b].
+    right. split; [reflexivity|]. tauto.
 Qed.
 
 End Statements.
